@@ -19,7 +19,7 @@ theorem rd_cancel_parked_safe : ∀ s, Reach (sys cfgRdCancelParked) s → safe 
   safe_of_check _ { coded with M := 331 } 400 _ (by decide +kernel)
 
 theorem wr_cancel_parked_safe : ∀ s, Reach (sys cfgWrCancelParked) s → safe cfgWrCancelParked s = true :=
-  safe_of_check _ { coded with M := 251, W := 176 } 400 _ (by decide +kernel)
+  safe_of_check _ { coded with M := 251, W := 192 } 400 _ (by decide +kernel)
 
 /-- existence of a reachable state, from an explicit schedule checked by the kernel -/
 theorem witness (cfg : Config) (cs : List Nat) (good : St → Bool)
@@ -68,7 +68,7 @@ theorem cancel_before_start_VIOLATES_no_stale_event :
 theorem error_start_VIOLATES_os_error :
     ∀ s, Reach (sys cfgRdErrorStart) s →
       ((getOp s 0).outcome != 3 && safe cfgRdErrorStart s) = true :=
-  safe_of_check _ { coded with M := 251, W := 176 } 400 _ (by decide +kernel)
+  safe_of_check _ { coded with M := 251, W := 192 } 400 _ (by decide +kernel)
 
 /-- … the parked state: the syscall failed with errno 5, everything scheduled before the fence has
     run, the loop is blocked in epoll_wait, the operation has not completed. -/
@@ -85,7 +85,7 @@ theorem error_retry_VIOLATES_os_error :
       (((getOp s 0).completions == 0 ||
           ((getOp s 0).outcome == 3 && (getOp s 0).val == 1 && (getOp s 0).sysErr == 5)) &&
        safe cfgRdErrorRetry s && clean cfgRdErrorRetry s) = true :=
-  safe_of_check _ { coded with M := 127, W := 176 } 400 _ (by decide +kernel)
+  safe_of_check _ { coded with M := 127, W := 192 } 400 _ (by decide +kernel)
 
 theorem error_retry_VIOLATES_completes :
     ∃ s, Reach (sys cfgRdErrorRetry) s ∧ ((getOp s 0).completions == 1 && !errTrue s) = true :=
